@@ -38,11 +38,16 @@ class ManualExecutor(Executor):
         p = self.plan.get(sub, self.plan.get(str(sub), {}))
         fut = Future()
         fut._mxv_sub = sub
-        self.futs.setdefault(sub, []).append(fut)
+        retain = not self.plan.get("_noretain")
+        if retain:
+            self.futs.setdefault(sub, []).append(fut)
+        else:
+            self.futs.setdefault(sub, []).append(None)   # count attempts only: hold no reference (C12)
         E.emit("DelegateSubmit", f=sub, k=k, s=self.tag)
         if not p.get("cancellable", True):
             fut.set_running_or_notify_cancel()
-        H.tap_cancel(fut, sub, self.tag, k)
+        if retain:
+            H.tap_cancel(fut, sub, self.tag, k)
         dur = p.get("dur") or 0
         durs = dur if isinstance(dur, (list, tuple)) else [dur]
         d = durs[min(len(self.futs[sub]), len(durs)) - 1]
